@@ -107,9 +107,13 @@ func VerifHarness_C14_requests() {
 		}
 	}
 	conns = append(conns, &c14Conn{id: 0, tracker: tr0, inv: h0.Handle, log: &log, txids: txids})
+	var untrustedTxHandler *UntrustedTXHandler // the body handler of the first untrusted connection
 	for i := 1; i < nConns; i++ {
 		us := state.NewUntrustedState()
 		us.SetVerified()
+		if untrustedTxHandler == nil {
+			untrustedTxHandler = NewUntrustedTXHandler(us, &txChannel)
+		}
 		tr := state.NewTxTracker()
 		h := NewUntrustedInvHandler(us, tr, memPool)
 		conns = append(conns, &c14Conn{id: i, tracker: tr, inv: h.Handle, log: &log, txids: txids})
@@ -165,8 +169,16 @@ func VerifHarness_C14_requests() {
 		case 1: // the body of tx0 or tx1 arrives; the transaction processor takes it at once, or is
 			// busy (it waits for the block processor's lock) and takes it at a later event
 			k := verifrt.Choose(steps[e]+".tx", 2)
-			_, herr := txHandler.Handle(ctx, txs[k])
+			var herr error
+			if verifrt.Choose(steps[e]+".from-an-untrusted-peer", 2) == 1 {
+				// (enters the mempool without the trusted mark; the trusted peer's announcement may follow)
+				_, herr = untrustedTxHandler.Handle(ctx, txs[k])
+				verifrt.Reach("C14.event.body-from-an-untrusted-peer")
+			} else {
+				_, herr = txHandler.Handle(ctx, txs[k])
+			}
 			verifrt.Assert(herr == nil, "C14.body.handled")
+			verifrt.Assert(len(txChannel.Channel) > 0, "C14.body.queued-for-the-processor")
 			arrived[k] = true
 			queued[k] = true
 			if verifrt.Choose(steps[e]+".processor-busy", 2) == 0 {
